@@ -18,7 +18,44 @@ from . import engine as E
 from .engine import Engine, Unsupported, Ref, Obj, ObjT, PyConst, State, Obligation
 from .contract import Contract, Lemma
 
-Z3_TIMEOUT_MS = int(os.environ.get("VERIF_Z3_TIMEOUT_MS", "8000"))
+# Solver budgets are z3 resource units (deterministic: the same query gets the
+# same verdict on an idle and on a saturated machine); the wall-clock timeout is
+# only a safety net far above what the budget can take.
+# (about 2e6 units per CPU second here; the slowest obligation on the pinned tree needs 4e6)
+Z3_RLIMIT = int(os.environ.get("VERIF_Z3_RLIMIT", "40000000"))
+Z3_TIMEOUT_MS = int(os.environ.get("VERIF_Z3_TIMEOUT_MS", "180000"))
+RL_PER_MS = 2000  # conversion used for the small auxiliary budgets below
+
+
+def budget(s, ms, wall=20):
+    """Give solver `s` a deterministic budget equivalent to about `ms` idle
+    milliseconds; the wall-clock limit is `wall` times that.  Use wall=2 only
+    where a timeout is harmless (canary, satisfiability of the precondition,
+    path pruning: only `unsat` is acted upon there)."""
+    s.set("rlimit", ms * RL_PER_MS)
+    s.set("timeout", max(ms * wall, 2000))
+
+
+RL_STATS = []  # (rlimit count, cpu seconds) per solver call, for calibration
+
+
+def _checked(s):
+    """s.check() with resource accounting."""
+    c0 = time.process_time()
+    r = s.check()
+    try:
+        st = s.statistics()
+        rl = next((st.get_key_value(k) for k in st.keys() if k == "rlimit count"), 0)
+    except Exception:
+        rl = 0
+    global _RL_LAST
+    # z3 reports the counter cumulatively per context
+    RL_STATS.append((rl - _RL_LAST, time.process_time() - c0, str(r)))
+    _RL_LAST = rl
+    return r
+
+
+_RL_LAST = 0
 CLI_TIMEOUT_S = int(os.environ.get("VERIF_CLI_TIMEOUT_S", "12"))
 
 
@@ -336,6 +373,7 @@ def bind_params_for_call(*a, **k):  # placeholder kept for import compatibility
 def solver_for(engine, pc):
     s = z3.Solver()
     s.set("timeout", Z3_TIMEOUT_MS)
+    s.set("rlimit", Z3_RLIMIT)
     for a in engine.axioms:
         s.add(a)
     for p in pc:
@@ -349,10 +387,15 @@ def discharge(engine, ob, want_model=True, quick_ms=None):
     if getattr(ob, "trivial", False):
         return "discharged", "syntactic", 0.0, None
     s = solver_for(engine, ob.pc)
+    hintable = "PS" in engine.specfns or "card" in engine.specfns or "pow10" in engine.specfns
     if quick_ms:
-        s.set("timeout", quick_ms)
+        budget(s, quick_ms, wall=2)
+    elif hintable and getattr(engine.contract, "prefer_hints", False):
+        # a first, short attempt: obligations that need the derived hints
+        # below would otherwise burn the whole budget before getting them
+        budget(s, 2500)
     s.add(z3.Not(ob.goal))
-    r = s.check()
+    r = _checked(s)
     dt = time.time() - t0
     if r == z3.unsat:
         return "discharged", "z3", dt, None
@@ -364,18 +407,19 @@ def discharge(engine, ob, want_model=True, quick_ms=None):
         st2, be2, dt2, det2 = discharge_qf(qf + inst, ob.goal)
         if st2 == "discharged":
             return "discharged", be2 + "+pow10inst", time.time() - t0, None
-    if r != z3.sat and ("PS" in engine.specfns or "card" in engine.specfns):
+    if r != z3.sat and hintable and not quick_ms:
         # bag abstraction: the prodset axioms only fire on syntactic
-        # store-terms; derive the needed instances by set matching
-        hints = ps_hints(engine, ob)
-        if hints:
+        # store-terms; derive the needed instances by set matching.  This
+        # second attempt has the full budget (with or without hints).
+        hints = ps_hints(engine, ob) if ("PS" in engine.specfns or "card" in engine.specfns) else []
+        if True:
             s2 = solver_for(engine, ob.pc)
             for h in hints:
                 s2.add(h)
             s2.add(z3.Not(ob.goal))
-            r2 = s2.check()
+            r2 = _checked(s2)
             if r2 == z3.unsat:
-                return "discharged", "z3+sethints", time.time() - t0, None
+                return "discharged", ("z3+sethints" if hints else "z3"), time.time() - t0, None
             s, r = s2, r2
             dt = time.time() - t0
     detail = None
@@ -478,7 +522,7 @@ def ps_hints(engine, ob):
 
     def entails(f):
         sol = z3.Solver()
-        sol.set("timeout", 1500)
+        budget(sol, 1500)
         for p in qf:
             sol.add(p)
         sol.add(z3.Not(f))
@@ -620,7 +664,7 @@ def _run(eng, contract, fn, res):
         st.assume(eng.eval_spec(st, pre))
     # vacuity: precondition satisfiable
     s = solver_for(eng, st.pc)
-    s.set("timeout", 1500)
+    budget(s, 1500, wall=2)
     r = s.check()
     res.pre_sat = str(r)
     if r == z3.unsat:
@@ -684,7 +728,7 @@ def _run(eng, contract, fn, res):
                 pref = pref[:n]
             sm = solver_for(eng, pref)
             sm.add(z3.Or(*[z3.And(*(ob.pc[len(pref):] + [z3.Not(ob.goal)])) for ob in live]))
-            if sm.check() == z3.unsat:
+            if _checked(sm) == z3.unsat:
                 merged_ok = True
                 dtm = (time.time() - t0m) / len(live)
         nfail = 0
@@ -729,7 +773,8 @@ def _has_quantifier(e):
 def discharge_qf(hyps, goal, timeout_ms=None):
     t0 = time.time()
     s = z3.Solver()
-    s.set("timeout", timeout_ms or Z3_TIMEOUT_MS)
+    s.set("timeout", Z3_TIMEOUT_MS)
+    s.set("rlimit", (timeout_ms * RL_PER_MS) if timeout_ms else Z3_RLIMIT)
     for h in hyps:
         s.add(h)
     s.add(z3.Not(goal))
